@@ -79,7 +79,9 @@ def h_fault(ex, dll, L, kind, fault, windows=(1, 1), nmax=None):
     t_last = max([f['t'] for f in normal], key=lambda t: t.c) if normal else t0
     for f, reason in aborts:
         ex.claim('abort.reason_not_busy', reason != 1, dict(info, reason=reason, src=f['src']))
-        limit = t_last + long_t + SLACK
+        # an abort is sent by a side that waits for a CTS or for data: at most 1.25 s (the 3 s of J1939-22 apply to
+        # the wait for the end-of-message acknowledge, which ends silently)
+        limit = t_last + Fraction(5, 4) + SLACK
         ex.claim('gives_up_within_timeout', f['t'] <= limit, dict(info, abort_at=str(f['t'] - t_last)))
     # whoever stops waiting for a CTS or for data packets tells the peer.  Once the responder has the complete
     # message nobody waits for a CTS or data any more (the originator waits for the acknowledgement): no abort required.
@@ -133,12 +135,14 @@ def h_giveup_time(ex, dll, L, kind, fault, windows=(1, 1)):
     w.run(until=T('1/100'))
     r = sa.ca.send_pgn(0, pf, ps, 6, list(payload))
     long_t = Fraction(3) if dll == 'j1939-22' else Fraction(5, 4)
-    # run until the bus has been silent for the timeout (+ slack)
+    # run until the bus has been silent for the timeout of the state (+ slack): 1.25 s, or 3 s once the J1939-22
+    # originator has sent its end-of-message status and waits for the acknowledge
     last_n = -1
     while True:
         n_before = len(w.log)
         t_ref = w.log[-1]['t'] if w.log else w.now
-        w.run(until=t_ref + long_t + SLACK + Fraction(1, 1000))
+        waits_ack = dll == 'j1939-22' and any(classify(f, dll)[0] == 'eoms' for f in w.log if f['src'] == 'A')
+        w.run(until=t_ref + (long_t if waits_ack else Fraction(5, 4)) + SLACK + Fraction(1, 1000))
         if len(w.log) == n_before:
             break
         if len(w.log) > 400:
